@@ -9,6 +9,7 @@ archive contains.
 -/
 import ZoektModel.C15.Lemmas
 import ZoektModel.C15.WalkLemmas
+import ZoektModel.C15.GlobLemmas
 namespace ZoektModel.C15
 open ZoektModel
 
@@ -187,6 +188,57 @@ theorem C15_checkDir_partial (wc : WalkCfg) (ic : IdxCfg) (nm : String) (cs : Li
   rw [dir_index_exact_partial wc ic nm cs hT]
   simp [checkDir, sameDocs]
 
+/-! ## ignore files -/
+
+/-- **a line without glob characters is a prefix pattern** (ignore.go: "a trailing ** is implicit"): for every
+    trimmed, non-comment line without `. ] [ * ?` and without leading '/', `ParseIgnoreFile` yields a pattern that
+    matches exactly the paths the line is a prefix of -/
+theorem ignore_plain_line_is_prefix (l path : List Char)
+    (hne : l ≠ []) (htrim : trimSpace l = l) (hhash : l.head? ≠ some '#') (hslash : l.head? ≠ some '/')
+    (hplain : ∀ c ∈ l, c ∉ globChars) :
+    (parseIgnoreLine l).map (fun p => globMatch p path) = some (l.isPrefixOf path) := by
+  have hany : (l.any fun c => globChars.contains c) = false := by
+    rw [List.any_eq_false]
+    intro c hc
+    simpa using hplain c hc
+  have hlex : lexGlob (l ++ ['*', '*']) = l.map Tok.lit ++ [.super] := by
+    apply lexGlob_plain
+    intro c hc
+    have := hplain c hc
+    simp only [globChars, List.mem_cons, List.not_mem_nil, or_false, not_or] at this
+    exact ⟨this.2.2.2.1, this.2.2.2.2⟩
+  unfold parseIgnoreLine
+  simp only [htrim]
+  cases l with
+  | nil => exact absurd rfl hne
+  | cons c t =>
+    have hc1 : c ≠ '#' := by intro e; subst e; simp at hhash
+    have hc2 : c ≠ '/' := by intro e; subst e; simp at hslash
+    split
+    · rename_i heq; cases heq
+    · rename_i heq
+      simp only [List.cons.injEq] at heq
+      exact absurd heq.1 hc1
+    · split
+      · rename_i heq
+        simp only [List.cons.injEq] at heq
+        exact absurd heq.1 hc2
+      · simp only [hany, Bool.false_eq_true, if_false, Option.map_some, hlex, globMatch_lits_super]
+
+/-- blank lines and comments contribute no pattern -/
+theorem ignore_comment_or_blank (l : List Char)
+    (h : trimSpace l = [] ∨ (trimSpace l).head? = some '#') : parseIgnoreLine l = none := by
+  unfold parseIgnoreLine
+  rcases h with h | h
+  · simp [h]
+  · cases ht : trimSpace l with
+    | nil => simp
+    | cons c t =>
+      rw [ht] at h
+      simp only [List.head?_cons, Option.some.injEq] at h
+      subst h
+      simp
+
 /-! ## non-vacuity -/
 
 example : stripComponents ['r', '/', 's', '/', 'm'] 1 = ['s', '/', 'm'] := by rw [strip_spec]; decide
@@ -198,6 +250,11 @@ example : indexOrig 0 [⟨.dir, ['t', '/'], []⟩] = .panic "nil-builder-finish"
   (indexOrig_panics_iff _ _).mpr (by decide)
 example : index 0 [⟨.dir, ['t', '/'], []⟩] = .ok [] := by rw [archive_docs_exact]; decide
 
+
+example : (parseIgnoreLine ['v', 'e']).map (fun p => globMatch p ['v', 'e', '2', '/', 'x']) = some true := by
+  rw [ignore_plain_line_is_prefix _ _ (by simp) (by decide) (by simp) (by simp) (by decide)]; decide
+example : (parseIgnoreLine ['v', 'e']).map (fun p => globMatch p ['s', '/', 'v', 'e']) = some false := by
+  rw [ignore_plain_line_is_prefix _ _ (by simp) (by decide) (by simp) (by simp) (by decide)]; decide
 
 def exTree : Node := .dir "root" [
   .dir ".git" [.file "config" [1, 2, 3]],
